@@ -40,10 +40,9 @@ def rule_F5c(ctx):
                   msg=f"{sc.name} must return one column per entry of param_names {names}")
         if ok:
             for i, el in enumerate(rets[0].value.elts):
-                if isinstance(el, ast.Name):
-                    ctx.check(el.id == names[i], "F5c", f"{k}: column {i} is {names[i]}", func=sc, node=el, construct=f"scale-order:{k}:{i}",
-                              msg=f"{sc.name} returns `{el.id}` at position {i} where param_names says `{names[i]}`: columns are "
-                                  f"stored under the wrong name and the decoder reads another quantity")
+                if isinstance(el, ast.Name) and el.id != names[i]:
+                    # a naming convention, not semantics (renaming a local is behaviour-preserving): evidence only
+                    ctx.note("F5c", f"{sc.name} returns the local `{el.id}` at position {i} where param_names says `{names[i]}`", sc, el)
         read = {n.slice.value for n in own_nodes(rs.node) if isinstance(n, ast.Subscript) and norm(n.value) == rs.params[0]
                 and isinstance(n.slice, ast.Constant)}
         ctx.check(read == set(names), "F5c", f"{k}: rescale reads {sorted(names)}", func=rs, construct=f"rescale-names:{k}",
@@ -62,7 +61,8 @@ def rule_names(ctx):
     ctx.touch(enc, dec, dt)
     base = None
     for n in own_nodes(enc.node):
-        if isinstance(n, ast.Assign) and norm(n.targets[0]) == "parameter_names" and isinstance(n.value, ast.List):
+        if isinstance(n, ast.Assign) and isinstance(n.value, ast.List) and len(n.value.elts) == 4 \
+                and all(isinstance(e, ast.Constant) and isinstance(e.value, str) for e in n.value.elts) and "beat_period" in [e.value for e in n.value.elts]:
             base = [e.value for e in n.value.elts if isinstance(e, ast.Constant)]
     ctx.require(base is not None, "NAMES", enc.qname, "parameter_names literal not found")
     ctx.check(sorted(base) == sorted(["beat_period", "velocity", "timing", "articulation_log"]), "NAMES", "encoder's base names", func=enc,
@@ -75,7 +75,7 @@ def rule_names(ctx):
         read = set()
         for n in own_nodes(who.node):
             if isinstance(n, ast.Subscript) and isinstance(n.slice, ast.Constant) and isinstance(n.slice.value, str) \
-                    and norm(n.value) in ("performance_array", "parameters", "time_param"):
+                    and isinstance(n.value, ast.Name) and n.value.id in who.all_params and n.value.id in ("performance_array", "parameters"):
                 read.add(n.slice.value)
             if isinstance(n, (ast.List, ast.Tuple)) and all(isinstance(e, ast.Constant) and isinstance(e.value, str) for e in n.elts) and n.elts:
                 vals = {e.value for e in n.elts}
@@ -164,20 +164,26 @@ def rule_rowrank(ctx):
             val = n.value.args[0].elt.elts[1]
             mask = isinstance(val, ast.Subscript) and isinstance(val.slice, ast.Compare)
             dicts[norm(n.targets[0])] = 1 if mask else 0
-    pairs = [n for n in own_nodes(f.node) if isinstance(n, ast.Assign) and norm(n.targets[0]) == "note_pairs" and isinstance(n.value, ast.ListComp)]
-    ctx.require(len(pairs) == 1 and dicts, "ROWRANK", f.qname, "pairing comprehension not recognised")
-    ranks = []
-    for e in pairs[0].value.elt.elts:
-        r = None
+    def from_dicts(e):
         if isinstance(e, ast.Subscript) and norm(e.value) in dicts:
-            r = dicts[norm(e.value)]
-        elif isinstance(e, ast.Subscript) and isinstance(e.slice, ast.Constant) and e.slice.value == 0 and isinstance(e.value, ast.Subscript) \
+            return dicts[norm(e.value)]
+        if isinstance(e, ast.Subscript) and isinstance(e.slice, ast.Constant) and e.slice.value == 0 and isinstance(e.value, ast.Subscript) \
                 and norm(e.value.value) in dicts:
-            r = 0
-        ranks.append(r)
-    rows = [n for n in own_nodes(f.node) if isinstance(n, ast.Assign) and norm(n.targets[0]) == "pair_info" and isinstance(n.value, ast.Tuple)]
-    ctx.require(rows, "ROWRANK", f.qname, "row tuple not found")
-    raw = [e for e in rows[0].value.elts if isinstance(e, ast.Subscript) and isinstance(e.slice, ast.Constant) and norm(e.value) in ("sn", "n")]
+            return 0
+        return None
+    pairs = [n for n in own_nodes(f.node) if isinstance(n, ast.Assign) and isinstance(n.value, ast.ListComp) and isinstance(n.value.elt, ast.Tuple)
+             and len(n.value.elt.elts) == 2 and all(from_dicts(e) is not None for e in n.value.elt.elts)]
+    ctx.require(len(pairs) == 1 and dicts, "ROWRANK", f.qname, "pairing comprehension not recognised")
+    pv = norm(pairs[0].targets[0])
+    ranks = [from_dicts(e) for e in pairs[0].value.elt.elts]
+    members = set()
+    for a in own_nodes(f.node):
+        if isinstance(a, ast.Assign) and isinstance(a.targets[0], ast.Tuple) and isinstance(a.value, ast.Subscript) and norm(a.value.value) == pv:
+            members |= {norm(t) for t in a.targets[0].elts}
+    rows = [n for n in own_nodes(f.node) if isinstance(n, ast.Assign) and isinstance(n.value, ast.Tuple) and len(n.value.elts) >= 4
+            and any(isinstance(e, ast.Subscript) and norm(e.value) in members for e in n.value.elts)]
+    ctx.require(rows and members, "ROWRANK", f.qname, "row tuple not found")
+    raw = [e for e in rows[0].value.elts if isinstance(e, ast.Subscript) and isinstance(e.slice, ast.Constant) and norm(e.value) in members]
     ok = all(r == 0 for r in ranks) or not raw
     ctx.check(ok, "ROWRANK", "matched-note rows hold scalars", func=f, node=rows[0], construct="row-of-arrays",
               msg=f"the paired notes are one-element arrays (boolean-mask selection) and `{norm(raw[0]) if raw else ''}` etc. are packed "
